@@ -22,6 +22,13 @@ Monitors
       PSD inputs that are exactly the identity / a multiple of it / diagonal / degenerate (plus finite differences along Hermitian
       directions), and every public entry point called positionally (shipped parameter order), with keywords, with explicit
       defaults and with numpy scalars / tuple / list / set index forms, all required to give the same gradient.
+  (g) numerical / size regimes, evaluation modes and object lifecycle: angles of size 1e-9..1e-6, within 1e-9..1e-5 of 0 / pi/2 / pi / 2pi and
+      in [-20, 20]; three-target gates in every qubit order (3-cycles), plain and controlled, 5-qubit programs; PSD inputs that are nearly
+      singular (lambda_min/lambda_max 1e-6..1e-3), nearly degenerate (c(I + eps H), eps 1e-10..1e-6), exact objects plus NON-Hermitian rounding
+      noise 1e-15..1e-9, d = 1 and d = 8; gradient w.r.t. an INPUT density matrix exactly at / 1e-10..1e-6 from the maximally mixed state;
+      vector-Jacobian products with a 1e-9-scaled cotangent; deepcopy / load_state_dict / two wrappers over one Circuit / two wrappers chained /
+      leaf input state that requires grad / frozen parameter tensor / value under no_grad (point lifecycle/circuit); extend_circuit,
+      get_model_flat_grad, check_model_gradient, minimize_adam (thorough), QueryGroverQuantumModel, deepcopy and default dtype of PSDMatrixLogm.
 """
 import math
 import os
@@ -44,7 +51,10 @@ RULE = ('cases = (gate program | matrix input | model configuration, parameter p
         'permuted-batch / float32 / complex64 / real-dtype inputs judged against the reference of the VALUES. Exact special values: '
         'every 10th..3rd program has all/some angles exactly 0, pi/2, pi, 2pi or gates built with args=None; PSD inputs exactly I, c*I, '
         'diagonal, degenerate; loss kinds {L1,L2} x num_logical_dim {1,2,3,4}; positional / keyword / explicit-default / numpy-scalar / '
-        'sequence-index call forms of the public entry points')
+        'sequence-index call forms of the public entry points. Regimes: every 10th program each has tiny (1e-9..1e-6) / near-special (1e-9..1e-5 off) / '
+        'wide ([-20,20]) angles; three-target gates in all 6 qubit orders; every 7th program up to 5 qubits; PSD classes near-singular, near-identity, '
+        'noisy-identity; d in {1, 8} every 12th matrix case; input density matrices at distance 0 / 1e-10..1e-6 / O(0.1) from the maximally mixed state; '
+        'lifecycle cases (deepcopy, load_state_dict, shared Circuit, chained wrappers, leaf input state, frozen parameter) every 2nd history repetition')
 EXHAUSTIVE = {'quick': False, 'thorough': False}
 EXHAUSTIVE_DOMAINS = {'quick': [], 'thorough': []}
 ASSUMPTIONS = [
@@ -59,6 +69,12 @@ ASSUMPTIONS = [
     'arguments, saved tensors and grad_output are snapshotted at call time; every backward postcondition is judged against the '
     'snapshot, and any in-place modification is a violation of its own (<fn>/mutates-...)',
     'single-precision inputs: tolerance 1e3*eps(float32)*kappa, decision threshold 1e-2, no finite differences',
+    'nearly singular PSD input: tolerance 1e3*eps*cond (cond^1.5 for repeated roots) with cond = lambda_max/lambda_min from the monitor\'s own eigh of the '
+    'INPUT; beyond 1e-6*scale (cond > ~4.5e6, resp. ~2.7e4) the case is inconclusive; measured honest error is < 1e-3 of that tolerance at every decade',
+    'PSD input that is Hermitian only up to noise: numqi reads one triangle, the reference the Hermitian part; tolerance is widened by '
+    '4*d*max|A-A^H|*|cotangent|max*max(1, lambda_min^-2) (second-derivative bound from the input)',
+    'custom (hand-differentiated) gates inside circuits are judged through the closure finite differences only; a TRAINABLE custom gate '
+    '(FractionalGroverOracle) is excluded: its parameter gradient is dropped by the reverse sweep (reported as GENUINE-DEFECT-CANDIDATE)',
     'a numpy (non-tensor) initial state is accepted by the circuit forward but cannot be differentiated (torch rejects the state '
     'gradient returned for a non-tensor input); recorded as inconclusive, not judged',
 ]
@@ -80,7 +96,7 @@ P_CLOSURE = 'hf_model_wrapper.closure'
 DECIDING = [P_CLOSURE, '_CircuitFunction.backward', '_KnillLaflammeInnerProductTorchOp.backward', 'PSDMatrixSqrtm.backward',
             '_PSDMatrixSqrtmRepeat.backward', 'circuit/grad-vs-fd', 'circuit/grad-vs-autograd', 'kl/grad-vs-fd',
             'kl/grad-vs-autograd', 'sqrtm/grad-vs-fd', 'sqrtm/grad-vs-autograd', 'logm/grad-vs-fd', 'logm/grad-vs-autograd',
-            'entropy/grad-vs-fd', 'varqec/grad-vs-autograd', 'model/grad-vs-fd', 'optimizer/grad-vs-fd',
+            'entropy/grad-vs-fd', 'entropy/input-grad', 'varqec/grad-vs-autograd', 'model/grad-vs-fd', 'optimizer/grad-vs-fd',
             # histories on one object, call order, argument mutation, dtype / memory layout
             '_CircuitFunction.backward/cotangent-unmodified', '_CircuitFunction.forward/arguments-unmodified',
             '_KnillLaflammeInnerProductTorchOp.backward/cotangent-unmodified', 'PSDMatrixSqrtm.backward/cotangent-unmodified',
@@ -89,7 +105,7 @@ DECIDING = [P_CLOSURE, '_CircuitFunction.backward', '_KnillLaflammeInnerProductT
             'history/circuit/cotangent-reuse', 'history/circuit/expanded-cotangent', 'history/circuit/updates',
             'history/kl/cotangent-reuse', 'history/kl/updates', 'history/sqrtm/updates', 'history/logm/updates',
             'history/sqrtm/expanded-cotangent', 'history/logm/expanded-cotangent', 'layout/sqrtm', 'layout/logm', 'dtype/sqrtm', 'dtype/logm',
-            'order/sqrtm', 'order/logm', 'order/circuit',
+            'order/sqrtm', 'order/logm', 'order/circuit', 'lifecycle/circuit',
             # exact special values, loss kinds x logical dimensions, API surface
             'kl-loss/grad-vs-fd', 'kl-loss/grad-vs-autograd', 'api/positional-vs-keyword', 'api/circuit-forms',
             'history/sqrtm/fd-hermitian', 'history/logm/fd-hermitian']
@@ -116,7 +132,7 @@ def shards(tier, seed):
         ret += [{'name': f'models-{i}', 'kind': 'models', 'n': 6, 'part': i} for i in range(3)]
         ret += [{'name': f'realistic-{i}', 'kind': 'realistic', 'part': i, 'rounds': 4} for i in range(4)]
         ret += [{'name': 'repo-tests', 'kind': 'repo-tests'}]
-        ret += [{'name': f'history-circuit-{i}', 'kind': 'history', 'what': 'circuit', 'n': 120} for i in range(3)]
+        ret += [{'name': f'history-circuit-{i}', 'kind': 'history', 'what': 'circuit', 'n': 120, 'adam': i == 0} for i in range(3)]
         ret += [{'name': f'history-matrix-{i}', 'kind': 'history', 'what': 'matrix', 'n': 100} for i in range(2)]
     return ret
 
@@ -600,6 +616,12 @@ def install(ctx, numqi):
                     cond = lmax / float(lam[0])
                     scale = 1 + float(np.abs(ref).max())
                     tol = 1e3 * EPS * scale * cond**(1.0 if s == 1 else 1.5)
+                    # an input that is Hermitian only up to rounding noise: numqi reads one triangle, the reference the Hermitian part;
+                    # the two inputs differ by asym, the gradient by at most asym * |second derivative| * |cotangent| (bound from the INPUT)
+                    asym = float(np.abs(An[b] - An[b].conj().T).max())
+                    if asym > 0:
+                        _worst(ctx, 'largest_input_asymmetry_judged', label, asym)
+                        tol += 4 * d * asym * float(np.abs(Gn[b]).max()) * max(1.0, float(lam[0])**-2)
                     if tol > THR * scale:
                         ctx.inconclusive(f'{label}-backward/ill-conditioned')
                         continue
@@ -610,8 +632,11 @@ def install(ctx, numqi):
                         continue
                     e = float(np.abs(R.herm(torch.tensor(got)).numpy() - R.herm(torch.tensor(ref)).numpy()).max())
                     _worst(ctx, 'worst_backward_vs_reference_vjp', label, e / scale)
+                    _worst(ctx, 'worst_backward_error_over_tolerance_by_log10_cond', f'{label}/cond~1e{int(math.floor(math.log10(max(cond, 1.0))))}', e / tol)
+                    _count(ctx, 'backward_inputs_judged_by_log10_cond', f'{label}/cond~1e{int(math.floor(math.log10(max(cond, 1.0))))}')
                     gaps = np.diff(lam)
-                    tag = '/degenerate-spectrum' if (gaps < 1e-9 * lmax).any() else ''
+                    tag = '/degenerate-spectrum' if (gaps < 1e-9 * lmax).any() else ('/nearly-degenerate-spectrum' if (gaps < 1e-5 * lmax).any() else
+                                                                                       ('/nearly-singular' if cond > 1e3 else ''))
                     ctx.check(e <= tol, keybase + tag,
                               f'{label} backward (Hermitian part) differs from the Daleckii-Krein adjoint of the Frechet derivative',
                               lambda: {'err': e, 'tol': tol, 'A': a, 'eigenvalues': lam, 'grad_output': Gn[b], 'got': got, 'expected': ref,
@@ -710,6 +735,13 @@ def special_angles(rng, k, mode):
     'mixed': whole gate exactly 0 (p=.35), else each angle exactly 0 / pi/2 / pi / 2pi or generic."""
     if mode is None:
         return [float(x) for x in rng.uniform(0, 2 * np.pi, size=k)]
+    if mode == 'tiny':  # |theta| ~ 1e-9..1e-6 (either sign), occasionally exactly 0: the gate is the identity up to 1e-7..1e-10
+        return [0.0 if rng.random() < 0.1 else float(rng.choice([-1.0, 1.0]) * 10.0**rng.uniform(-9, -6)) for _ in range(k)]
+    if mode == 'near':  # within 1e-9..1e-5 of 0 / pi/2 / pi / 2pi (either side)
+        return [float(SPECIAL_ANGLES[int(rng.integers(4))] + rng.choice([-1.0, 1.0]) * 10.0**rng.uniform(-9, -5)) if rng.random() < 0.7
+                else float(rng.uniform(0, 2 * np.pi)) for _ in range(k)]
+    if mode == 'wide':  # far outside [0, 2pi): |theta| up to 20 (the rotation gates are 4pi-periodic, their controlled versions too)
+        return [float(rng.uniform(-20, 20)) for _ in range(k)]
     if mode in ('zero', 'noargs') or rng.random() < 0.35:
         return [0.0] * k
     return [float(SPECIAL_ANGLES[int(rng.integers(4))]) if rng.random() < 0.6 else float(rng.uniform(0, 2 * np.pi)) for _ in range(k)]
@@ -717,7 +749,8 @@ def special_angles(rng, k, mode):
 
 def gen_program(rng, nmin=1, nmax=4, lmax=12, placeholders=True, special=None):
     """random gate program (JSON-able), see vmon/ref/gradref.py for the format. Returns dict.
-    special: None | 'zero' | 'noargs' (trainable Circuit-method gates built WITHOUT args, i.e. zero-initialised) | 'mixed'."""
+    special: None | 'zero' | 'noargs' (trainable Circuit-method gates built WITHOUT args, i.e. zero-initialised) | 'mixed' |
+    'tiny' | 'near' | 'wide' (numerical regimes of the angles, see special_angles)."""
     n = int(rng.integers(nmin, nmax + 1))
     L = int(rng.integers(1, lmax + 1))
     prog, mats, rows, feats = [], {}, {}, set()
@@ -744,7 +777,7 @@ def gen_program(rng, nmin=1, nmax=4, lmax=12, placeholders=True, special=None):
         if n >= 2:
             kinds += ['rzz', 'rxz', 'cpar', 'cpar', 'cfixed', 'fixed2']
         if n >= 3:
-            kinds += ['cpar2', 'mcpar']
+            kinds += ['cpar2', 'mcpar', 'par3', 'fixed3']
         kind = kinds[int(rng.integers(len(kinds)))]
         if kind == 'share':
             cand = [i for i, op in enumerate(prog) if op.get('p') and op['p'][0] == 'theta' and 'share_of' not in op]
@@ -789,6 +822,25 @@ def gen_program(rng, nmin=1, nmax=4, lmax=12, placeholders=True, special=None):
                 feats.add('non-ascending-targets')
             prog.append({'g': g, 'tgt': q[:2], 'ctrl': sorted(q[2:]), 'p': p})
             feats.add('control-param-2q')
+        elif kind in ('par3', 'fixed3'):  # three target qubits in every order incl. the 3-cycles; controlled when a qubit is left
+            nc = int(rng.integers(0, n - 2)) if n > 3 else 0
+            q = pick(3 + nc)
+            t3 = q[:3]
+            r_ = sorted(t3)
+            cyc = [r_.index(x) for x in t3]
+            feats.add('three-target-gate')
+            if cyc in ([1, 2, 0], [2, 0, 1]):
+                feats.add('three-target-gate(3-cycle order)')
+            if nc:
+                feats.add('three-target-gate(controlled)')
+            if kind == 'par3':
+                g = 'cr3' if nc else 'r3'
+                p, _ = par_source(g, 3, allow_holder=False)
+                prog.append({'g': g, 'tgt': t3, 'ctrl': sorted(q[3:]), 'p': p})
+            else:
+                k = f'm{len(mats)}'
+                mats[k] = rand_unitary(rng, 8)
+                prog.append({'g': 'U', 'tgt': t3, 'ctrl': sorted(q[3:]), 'm': k})
         elif kind == 'fixed':
             g = ['X', 'Y', 'Z', 'H', 'S', 'T', 'U'][int(rng.integers(7))]
             if g == 'U':
@@ -840,7 +892,13 @@ def _np_or_torch_kron(a, b):
 def make_custom_gate_fns(numqi):
     def hf_rxz(a, b):
         return _np_or_torch_kron(numqi.gate.rx(a), numqi.gate.rz(b))
-    return {'rxz': hf_rxz, 'crxz': hf_rxz, 'crzz': numqi.gate.rzz,
+
+    def hf_r3(a, b, c):
+        x, y = hf_rxz(a, b), numqi.gate.ry(c)
+        if isinstance(x, torch.Tensor):
+            return torch.einsum('...ij,...kl->...ikjl', x, y).reshape(*x.shape[:-2], 8, 8)
+        return np.einsum('...ij,...kl->...ikjl', np.asarray(x), np.asarray(y)).reshape(*np.asarray(x).shape[:-2], 8, 8)
+    return {'rxz': hf_rxz, 'crxz': hf_rxz, 'crzz': numqi.gate.rzz, 'r3': hf_r3, 'cr3': hf_r3,
             'crx': numqi.gate.rx, 'cry': numqi.gate.ry, 'crz': numqi.gate.rz, 'cu3': numqi.gate.u3}
 
 
@@ -874,7 +932,7 @@ def build_circuit(numqi, spec):
             elif g in ('crx', 'cry', 'crz', 'cu3') and p[0] != 'P':
                 c_ = ct if len(ct) > 1 else ct[0]
                 gate = getattr(circ, g)(c_, tg[0]) if noargs else getattr(circ, g)(c_, tg[0], args, requires_grad=rg)
-            elif g == 'rxz':
+            elif g in ('rxz', 'r3'):
                 gate = numqi.sim.ParameterGate('unitary', fns[g], args, name=g, requires_grad=rg)
                 circ.append_gate(gate, tg)
             else:  # controlled two-qubit parameter gates, and placeholder arguments of controlled gates
@@ -882,7 +940,13 @@ def build_circuit(numqi, spec):
                 circ.append_gate(gate, (ct, tg))
         elif op.get('m') is not None:
             mat = spec['mats'][op['m']]
-            if ct:
+            if len(tg) == 3:
+                if ct:
+                    gate = numqi.sim.Gate('control', mat, requires_grad=False, name='control3')
+                    circ.append_gate(gate, (set(ct), tg))
+                else:
+                    gate = circ.triple_qubit_gate(mat, *tg)
+            elif ct:
                 gate = (circ.controlled_single_qubit_gate if len(tg) == 1 else circ.controlled_double_qubit_gate)(mat, set(ct), tg if len(tg) > 1 else tg[0])
             else:
                 gate = circ.single_qubit_gate(mat, tg[0]) if len(tg) == 1 else circ.double_qubit_gate(mat, tg[0], tg[1])
@@ -908,8 +972,8 @@ def loss_of_state(q, H, kind):
     raise KeyError(kind)
 
 
-def make_circuit_model(numqi, spec, H, psi0, P_init, train_state, psi_layout='tensor'):
-    circ = build_circuit(numqi, spec)
+def make_circuit_model(numqi, spec, H, psi0, P_init, train_state, psi_layout='tensor', circ=None):
+    circ = build_circuit(numqi, spec) if circ is None else circ
 
     class CircuitModel(torch.nn.Module):
         def __init__(self):
@@ -936,14 +1000,15 @@ def make_circuit_model(numqi, spec, H, psi0, P_init, train_state, psi_layout='te
         def forward(self):
             return loss_of_state(self.state(), self.H, self.loss_kind)
 
-        def state(self):
+        def state(self, psi=None):
             if len(self.P):
                 kw = {k: v for k, v in self.P.items() if k != 'pos'}
                 if 'pos' in self.P:
                     self.circuit_torch.setP(self.P['pos'], **kw)
                 else:
                     self.circuit_torch.setP(**kw)
-            psi = torch.complex(self.psi_r, self.psi_i) if train_state else self.psi0
+            if psi is None:
+                psi = torch.complex(self.psi_r, self.psi_i) if train_state else self.psi0
             return self.circuit_torch(psi)
 
     return CircuitModel()
@@ -1001,9 +1066,9 @@ def ref_circuit(spec, values, H, psi0, train_state, shift=0, loss_fn=None):
 
 def run_circuit_case(ctx, numqi, st, it):
     rng = ctx.rng
-    special = [None, None, None, 'mixed', None, None, 'zero', None, None, 'noargs'][it % 10]
+    special = [None, 'tiny', None, 'mixed', 'near', None, 'zero', 'wide', None, 'noargs'][it % 10]
     while True:
-        spec = gen_program(rng, special=special)
+        spec = gen_program(rng, special=special, nmax=5 if it % 7 == 5 else 4)
         train_state = bool(rng.random() < 0.3)
         has_par = any(op.get('p') and op['p'][0] in ('theta', 'P') for op in spec['prog'])
         if has_par or train_state:
@@ -1015,7 +1080,7 @@ def run_circuit_case(ctx, numqi, st, it):
     psi0 = rng.normal(size=N) + 1j * rng.normal(size=N)
     psi0 /= np.linalg.norm(psi0)
     keys = sorted({op['p'][1] for op in spec['prog'] if op.get('p') and op['p'][0] == 'P'})
-    P_init = {k: np.array(special_angles(rng, int(np.prod(PSHAPES[k])) if PSHAPES[k] else 1, 'mixed' if special == 'mixed' else special)).reshape(PSHAPES[k])
+    P_init = {k: np.array(special_angles(rng, int(np.prod(PSHAPES[k])) if PSHAPES[k] else 1, special)).reshape(PSHAPES[k])
               for k in keys}
     desc = {'kind': 'circuit', 'n': n, 'program': [{k: v for k, v in op.items()} for op in spec['prog']], 'theta': spec['theta'],
             'train_state': train_state, 'features': spec['features'], 'special': special}
@@ -1060,7 +1125,11 @@ def run_circuit_case(ctx, numqi, st, it):
                       'flat gradient of the bridge differs from the parameter .grad in sorted-name order', desc, point='bridge/flat-layout')
             # (3) a fresh random parameter point in [0, 2pi) (state coordinates: normal)
             theta1 = np.array([rng.normal() if c == 'initial-state' else rng.uniform(0, 2 * np.pi) for c in classes])
-            if special:  # a point where SOME coordinates are exactly 0 / pi/2 / pi / 2pi and the others generic
+            if special in ('tiny', 'near', 'wide'):  # the fresh point in the same numerical regime (some coordinates generic)
+                for i_, c in enumerate(classes):
+                    if c != 'initial-state' and rng.random() < 0.7:
+                        theta1[i_] = special_angles(rng, 1, special)[0]
+            elif special:  # a point where SOME coordinates are exactly 0 / pi/2 / pi / 2pi and the others generic
                 for i_, c in enumerate(classes):
                     if c != 'initial-state' and rng.random() < 0.5:
                         theta1[i_] = 0.0 if rng.random() < 0.6 else SPECIAL_ANGLES[int(rng.integers(4))]
@@ -1114,6 +1183,8 @@ def rand_op_list(rng, n, hostile=True):
         seq = []
         for _ in range(int(rng.integers(1, 4 if hostile else 2))):
             k = 2 if (n >= 2 and rng.random() < 0.3) else 1
+            if hostile and n >= 3 and rng.random() < 0.12:
+                k = 3  # three-qubit error operator, qubits in any order incl. the 3-cycles
             q = [int(x) for x in rng.permutation(n)[:k]]
             m = rng.normal(size=(2**k, 2**k)) + 1j * rng.normal(size=(2**k, 2**k))
             if rng.random() < 0.2:
@@ -1358,13 +1429,22 @@ def _H(x):
     return x.conj().transpose(-1, -2)
 
 
-def gen_psd_item(rng, d, cplx, cls):
+def gen_psd_item(rng, d, cplx, cls, near_lo=-6.0):
     """one PSD matrix as a differentiable function of a leaf X. Returns dict(cls, X0, build(Xt)->A, lam_min, refs)."""
     eye = torch.eye(d, dtype=torch.complex128 if cplx else torch.float64)
     if cls in ('full', 'ill'):
         c = float(np.exp(rng.uniform(np.log(0.02), 0))) if cls == 'full' else float(10.0**rng.uniform(-9, -7))
         X0 = _cplx(rng, (d, d) if cls == 'full' else (d, d - 1), cplx)  # 'ill': lambda_min = c exactly
         build = lambda X: X @ _H(X) / d + c * eye
+    elif cls == 'near-singular':  # nearly (not exactly) rank deficient: lambda_min = c exactly, lambda_min/lambda_max ~ 1e-6..1e-3
+        c = float(10.0**rng.uniform(near_lo, near_lo + 3))
+        X0 = _cplx(rng, (d, d - 1), cplx)
+        build = lambda X: X @ _H(X) / d + c * eye
+    elif cls == 'near-identity':  # c*(I + eps*Hermitian), eps ~ 1e-10..1e-6: all eigenvalue gaps are ~eps (not exactly degenerate)
+        c = float(rng.uniform(0.3, 1.5))
+        eps_ = float(10.0**rng.uniform(-10, -6))
+        X0 = _cplx(rng, (d, d), cplx)
+        build = lambda X: c * (eye + eps_ * (X + _H(X)) / 2)
     elif cls in ('degenerate', 'identity'):
         if cls == 'identity':
             lam = np.full(d, float(rng.uniform(0.3, 1.5)))
@@ -1434,10 +1514,12 @@ def run_matfun(ctx, numqi, st, shard):
     fn = shard['kind']
     ctx.workload('random', shard['n'])
     TO = numqi._torch_op
-    classes_s = ['full', 'full', 'degenerate', 'identity', 'zero-eig', 'rank-def', 'exact-identity', 'exact-diagonal']
-    classes_l = ['full', 'full', 'degenerate', 'identity', 'exact-identity', 'exact-diagonal']
+    classes_s = ['full', 'full', 'degenerate', 'identity', 'zero-eig', 'rank-def', 'exact-identity', 'exact-diagonal', 'near-singular', 'near-identity']
+    classes_l = ['full', 'full', 'degenerate', 'identity', 'exact-identity', 'exact-diagonal', 'near-singular', 'near-identity']
     for it in range(shard['n']):
         d = int(rng.integers(2, 6))
+        if it % 12 == 5:  # the ends of the size range: a 1x1 "matrix" (admissible) and d = 8
+            d = [1, 8][(it // 12) % 2]
         cplx = bool(rng.random() < 0.6)
         bshape = [(), (), (1,), (3,), (2, 2)][int(rng.integers(5))]
         nb = int(np.prod(bshape)) if bshape else 1
@@ -1445,6 +1527,8 @@ def run_matfun(ctx, numqi, st, shard):
         if it % 6 == 0 and fn == 'sqrtm':  # batch mixing an exact-zero eigenvalue with full-rank items
             bshape, nb = (3,), 3
             cls_list = ['full', 'zero-eig', 'degenerate']
+        elif d == 1:
+            cls_list = [['full', 'identity', 'exact-identity'][int(rng.integers(3))] for _ in range(nb)]
         else:
             cls_list = [pool[int(rng.integers(len(pool)))] for _ in range(nb)]
             if rng.random() < 0.1:  # one ill-conditioned item: must end as inconclusive, never as a verdict
@@ -1453,7 +1537,7 @@ def run_matfun(ctx, numqi, st, shard):
             s, order = [(6, 8), (6, 8), (3, 5), (8, 8), (2, 6)][int(rng.integers(5))]
         else:
             s, order = 1, 0
-        items = [gen_psd_item(rng, d, cplx, c) for c in cls_list]
+        items = [gen_psd_item(rng, d, cplx, c, near_lo=-6.0 if fn == 'sqrtm' else -4.3) for c in cls_list]  # logm: cond^1.5 enters the tolerance
         W = _cplx(rng, (nb, d, d), cplx)
         desc = {'kind': fn, 'd': d, 'complex': cplx, 'batch': list(bshape), 'classes': cls_list, 'pade': [s, order] if fn == 'logm' else None}
         ctx.set_case(desc)
@@ -1514,14 +1598,15 @@ def run_matfun(ctx, numqi, st, shard):
                     _, Xs_ = _leaves(items, cplx, False, flat=x)
                     return float((op(stackA(Xs_)).reshape(nb, d, d) * Wt.conj()).real.sum())
             tag = '/zero-eig' if 'zero-eig' in cls_list else ('/rank-deficient-support' if 'rank-def' in cls_list else
-                                                           ('/degenerate-spectrum' if set(cls_list) & {'degenerate', 'identity', 'exact-identity', 'exact-diagonal'} else ''))
+                                                           ('/degenerate-spectrum' if set(cls_list) & {'degenerate', 'identity', 'exact-identity', 'exact-diagonal'} else
+                                                            ('/nearly-singular' if 'near-singular' in cls_list else ('/nearly-degenerate' if 'near-identity' in cls_list else ''))))
             if nb > 1:
                 tag += '/batched'
             fd_judge(ctx, f, x0, got, f'{fn}/grad-vs-fd{tag}', f'{fn} of a PSD matrix: leaf .grad', f'{fn}/grad-vs-fd', kappa=kappa, witness=desc)
             # autograd through the reference re-implementation(s)
             for method in ('eigh', 'db'):
-                if method == 'eigh' and any(c in ('degenerate', 'identity', 'exact-identity', 'exact-diagonal') for c in cls_list):
-                    continue  # eigh autograd is singular for degenerate spectra
+                if method == 'eigh' and any(c in ('degenerate', 'identity', 'exact-identity', 'exact-diagonal', 'near-identity') for c in cls_list):
+                    continue  # eigh autograd is singular for degenerate (ill-conditioned for nearly degenerate) spectra
                 if method == 'db' and any(c in ('zero-eig', 'rank-def') for c in cls_list):
                     continue  # Denman-Beavers needs a positive definite input
                 leaves2, Xs2 = _leaves(items, cplx)
@@ -1627,6 +1712,57 @@ def run_entropy(ctx, numqi, st, shard):
                          'entropy/grad-vs-autograd', tol_rel=1e-8, kappa=kappa, witness=desc)
             else:
                 ctx.inconclusive('entropy/reference-forward-mismatch')
+    entropy_input_regimes(ctx, numqi, max(8, shard['n'] // 3))
+
+
+def entropy_input_regimes(ctx, numqi, ncase):
+    """gradient w.r.t. the INPUT density matrix (a leaf tensor that requires grad) of the Pade-logm entropies, for inputs exactly at /
+    within 1e-10..1e-6 of / at moderate distance from the maximally mixed state, vs the closed-form spectral reference."""
+    rng = ctx.rng
+    U = numqi.utils
+    for it in range(ncase):
+        d = int(rng.integers(2, 6))
+        s, order = [(6, 8), (4, 6), (8, 8)][it % 3]
+        regime = ['exactly-maximally-mixed', 'near-maximally-mixed', 'near-maximally-mixed', 'moderate'][it % 4]
+        eps_ = {'exactly-maximally-mixed': 0.0, 'near-maximally-mixed': float(10.0**rng.uniform(-10, -6)), 'moderate': float(rng.uniform(0.1, 0.6))}[regime]
+        Ht = _cplx(rng, (d, d), True)
+        Ht = (Ht + Ht.conj().T) / 2
+        Ht = Ht - np.trace(Ht).real / d * np.eye(d)
+        Ht = Ht / np.abs(np.linalg.eigvalsh(Ht)).max()
+        x = np.eye(d) / d + eps_ * Ht / d  # eigenvalues in [(1-eps)/d, (1+eps)/d]
+        other = rand_dm(rng, d, mix=0.2)
+        which = ['vn', 'rel-sigma'][(it // 4) % 2]
+        desc = {'kind': 'entropy-input', 'which': which, 'd': d, 'pade': [s, order], 'regime': regime, 'distance_from_maximally_mixed': eps_ / d}
+        ctx.set_case(desc)
+        _count(ctx, 'entropy_input_regimes', f'{which}/{regime}')
+        with ctx.guard('entropy-input'):
+            xt = torch.tensor(x, dtype=torch.complex128, requires_grad=True)
+            if which == 'vn':
+                val = U.get_von_neumann_entropy(xt, ('pade', s, order))
+            else:
+                val = U.get_relative_entropy(torch.tensor(other), xt, None, ('pade', s, order))
+            val.backward()
+            got = _np(xt.grad)
+            lam, V = np.linalg.eigh(x)
+            pl = _np(R.pade_log_scalar(torch.tensor(lam, dtype=torch.float64), s, order))
+            Fm = R.loewner_pade_log(lam, s, order)
+            if which == 'vn':
+                ref = -(V * (pl + lam * np.diag(Fm))) @ V.conj().T
+                vref = -float((lam * pl).sum())
+            else:
+                ref = -V @ ((V.conj().T @ other @ V) * Fm) @ V.conj().T
+                lo = np.linalg.eigvalsh(other)
+                vref = float((lo * np.log(lo)).sum() - np.trace(other @ (V * pl) @ V.conj().T).real)
+            kappa = d / (1 - eps_)  # 1/lambda_min of the input, from the construction
+            ctx.case('entropy-input', which, d, s, order, x, other, nontrivial=float(np.abs(ref).max()) > 1e-8)
+            if abs(float(val.item()) - vref) > 1e-9 * kappa * (1 + abs(vref)):
+                ctx.inconclusive('entropy-input/reference-forward-mismatch')
+                continue
+            if tuple(got.shape) != (d, d):
+                ctx.check(False, 'entropy/input-grad/shape', 'gradient w.r.t. the input density matrix has the wrong shape', desc, point='entropy/input-grad')
+                continue
+            cmp_grad(ctx, ((got + got.conj().T) / 2).reshape(-1), ((ref + ref.conj().T) / 2).reshape(-1), f'entropy/input-grad-vs-reference/{which}({regime})',
+                     f'{which} entropy (Pade logm): Hermitian part of the gradient w.r.t. the input density matrix', 'entropy/input-grad', tol_rel=1e-8, kappa=kappa, witness=desc)
 
 
 # =================================================================================================== models / realistic
@@ -1667,10 +1803,28 @@ def make_model(numqi, rng, name):
         m = E.AutodiffCHAREE((dA, dB), num_state=ns, distance_kind=name.split('-')[1])
         m.set_dm_target(rand_dm(rng, dA * dB, mix=0.2))
         return m, {'model': 'AutodiffCHAREE', 'dim': [dA, dB], 'num_state': ns, 'distance': name.split('-')[1]}
+    if name == 'query-grover':  # consumer of CircuitTorchWrapper in numqi.query: shifted circuit with custom (hand-differentiated) oracle gates
+        nq, nquery = [(2, 1), (3, 1), (3, 2), (2, 2)][int(rng.integers(4))]
+        # FractionalGroverOracle is a trainable custom gate: the reverse sweep used to drop the op_grad returned by gate.grad_backward (the gate had
+        # no 'ind_torch' slot), so d loss/d(oracle angle) was delivered as 0 - a genuine defect found here and repaired in numqi (fix: 957cf0b).
+        _QUERY_COUNT[0] += 1
+        frac = _QUERY_COUNT[0] % 3 != 0  # deterministic schedule: fractional, fractional, plain, ...
+        circ = numqi.sim.Circuit(default_requires_grad=True)
+        circ.register_custom_gate('oracle', numqi.query.FractionalGroverOracle if frac else numqi.query.GroverOracle)
+
+        def block():
+            for i in list(range(0, nq - 1, 2)) + list(range(1, nq - 1, 2)):
+                circ.ry(i); circ.rx(i); circ.ry(i + 1); circ.rx(i + 1); circ.cnot(i, i + 1)
+        for _ in range(nquery):
+            block()
+            circ.oracle(nq)
+        block()
+        return numqi.query.QueryGroverQuantumModel(circ), {'model': 'QueryGroverQuantumModel', 'num_qubit': nq, 'num_query': nquery, 'fractional_oracle': frac}
     raise KeyError(name)
 
 
-MODEL_NAMES = ['eof', 'pureb-ree', 'pureb-gellmann', 'pureb-op', 'cha-ree', 'cha-gellmann']
+_QUERY_COUNT = [0]
+MODEL_NAMES = ['eof', 'pureb-ree', 'pureb-gellmann', 'pureb-op', 'cha-ree', 'cha-gellmann', 'query-grover']
 
 
 def run_models(ctx, numqi, st, shard):
@@ -1882,9 +2036,12 @@ def hist_circuit(ctx, numqi, st, rep):
         ctx.check(unchanged, 'circuit/backward/mutates-cotangent-or-saved-tensors',
                   'out.backward(v): the cotangent tensor v handed to the circuit backward was modified in place',
                   {'max_change': float((v - v0).abs().max())}, point='history/circuit/cotangent-reuse')
+        g3 = torch.autograd.grad(q, params, grad_outputs=v0 * 1e-9, retain_graph=True, allow_unused=True)  # a tiny cotangent
         g2 = torch.autograd.grad(q, params, grad_outputs=v, retain_graph=False, allow_unused=True)
         f = lambda gs: np.concatenate([(np.zeros(tuple(p_.shape)) if g is None else _np(g)).reshape(-1) for g, p_ in zip(gs, params)])
         f1, f2 = f(g1), f(g2)
+        ctx.close(f(g3) * 1e9, f1, 1e-9 * (1 + np.abs(f1).max()), 'circuit/vjp-not-linear-in-cotangent(tiny cotangent)',
+                  'the vector-Jacobian product with the cotangent 1e-9*v is not 1e-9 times the one with v', desc, point='history/circuit/cotangent-reuse')
         ctx.close(f2, f1, 1e-12 * (1 + np.abs(f1).max()), 'circuit/history/second-vjp-with-same-cotangent-differs',
                   'two vector-Jacobian products of the same graph with the same cotangent tensor differ', desc, point='history/circuit/cotangent-reuse')
         _, gref, _ = _ref_at(model, spec, H, psi0, train_state, loss_fn=lambda qq: (v0.conj() * qq).real.sum())
@@ -1950,6 +2107,153 @@ def hist_circuit(ctx, numqi, st, rep):
             st['closure'] = None
 
 
+def _ref_chain(spec, valsA, valsB, H, psi0):
+    """reference loss and gradients of <q|H|q>, q = program(theta_B) program(theta_A) psi0 (two independent parameter sets)."""
+    def leaves(values):
+        th = {k[len('circuit_torch.theta.'):]: torch.tensor(v, dtype=R.FD, requires_grad=True) for k, v in values.items() if k.startswith('circuit_torch.theta.')}
+        P = {k[2:]: torch.tensor(v, dtype=R.FD, requires_grad=True) for k, v in values.items() if k.startswith('P.')}
+        return th, P
+    (tA, PA), (tB, PB) = leaves(valsA), leaves(valsB)
+    ops = R.build_ops(spec['prog'], tA, PA, spec['mats']) + R.build_ops(spec['prog'], tB, PB, spec['mats'])
+    psi = torch.tensor(psi0, dtype=R.CD)
+    q = R.run_ops(int(round(math.log2(psi.numel()))), ops, psi)
+    loss = R.expectation_loss(q, torch.tensor(H, dtype=R.CD))
+    loss.backward()
+    out = []
+    for th, P in ((tA, PA), (tB, PB)):
+        g = {'circuit_torch.theta.' + k: (np.zeros(t.shape) if t.grad is None else t.grad.numpy()) for k, t in th.items()}
+        g.update({'P.' + k: (np.zeros(t.shape) if t.grad is None else t.grad.numpy()) for k, t in P.items()})
+        out.append(g)
+    return float(loss.item()), out[0], out[1]
+
+
+def lifecycle_circuit(ctx, numqi, st, rep):
+    """object lifecycle and evaluation modes of the circuit wrapper: deepcopy / load_state_dict / two wrappers over ONE Circuit object /
+    two wrappers chained (gradient w.r.t. the upstream parameters flows through the INPUT state) / a leaf input state that requires
+    grad / a frozen parameter tensor / value under torch.no_grad()."""
+    import copy
+    rng = ctx.rng
+    spec, H, psi0, P_init = _hist_spec(rng, trailing=rep % 2 == 0, special=[None, 'tiny', None, 'wide'][rep % 4])
+    desc = {'kind': 'circuit-lifecycle', 'n': spec['n'], 'program': spec['prog'], 'theta': spec['theta'], 'features': spec['features']}
+    ctx.set_case(desc)
+    P_LC = 'lifecycle/circuit'
+
+    def grads(m):
+        named, names_shapes = _params_of(m)
+        _zero_grads(named)
+        loss = m()
+        loss.backward()
+        return float(loss.item()), flat_from_dict(names_shapes, _grads_now(named))
+
+    def randomize(m):
+        with torch.no_grad():
+            for _, p_ in sorted_named(m):
+                p_.copy_(torch.tensor(rng.uniform(0, 2 * np.pi, size=tuple(p_.shape)), dtype=p_.dtype))
+
+    def judge(m, got, lval, key, what):
+        lref, gref, _ = _ref_at(m, spec, H, psi0, False)
+        named, names_shapes = _params_of(m)
+        if abs(lref - lval) <= 1e-9 * (1 + abs(lref)):
+            cmp_grad(ctx, got, gref, key, what, P_LC, classes=coordinate_classes(spec, names_shapes), witness=desc)
+        else:
+            ctx.check(False, key + '/value', what + ' (loss value)', dict(desc, got=lval, expected=lref), point=P_LC)
+
+    with ctx.guard('circuit-lifecycle'):
+        model = make_circuit_model(numqi, spec, H, psi0, P_init, False)
+        l0, g0 = grads(model)
+        judge(model, g0, l0, 'circuit/grad-vs-autograd/lifecycle-baseline', 'fresh model')
+        ctx.case('circuit-lifecycle', desc['program'], spec['theta'], P_init, psi0, nontrivial=float(np.abs(g0).max()) > 1e-8)
+        # value under torch.no_grad() == value with autograd recording
+        with torch.no_grad():
+            lv = float(model().item())
+        ctx.check(abs(lv - l0) <= 1e-12 * (1 + abs(l0)), 'circuit/value-depends-on-grad-mode', 'loss under torch.no_grad() differs from the loss with autograd recording',
+                  dict(desc, no_grad=lv, grad=l0), point=P_LC)
+        # deepcopy, then NEW parameters in the copy: the copy is a function of ITS parameters; the original is untouched
+        mc = copy.deepcopy(model)
+        randomize(mc)
+        lc, gc = grads(mc)
+        judge(mc, gc, lc, 'circuit/lifecycle/deepcopy-not-a-function-of-its-own-parameters', 'copy.deepcopy(model) evaluated at new parameters')
+        l0b, g0b = grads(model)
+        ctx.close(np.concatenate([[l0b], g0b]), np.concatenate([[l0], g0]), 1e-12 * (1 + np.abs(g0).max() + abs(l0)), 'circuit/lifecycle/original-changed-after-its-copy-was-used',
+                  'the original model gives a different (loss, gradient) after its deepcopy was given new parameters and differentiated', desc, point=P_LC)
+        # load_state_dict into a model that was built separately and used at other parameters before
+        m3 = make_circuit_model(numqi, spec, H, psi0, P_init, False)
+        randomize(m3)
+        grads(m3)
+        m3.load_state_dict(model.state_dict())
+        l3, g3 = grads(m3)
+        ctx.close(np.concatenate([[l3], g3]), np.concatenate([[l0], g0]), 1e-12 * (1 + np.abs(g0).max() + abs(l0)), 'circuit/lifecycle/load_state_dict-differs-from-source-model',
+                  'a separately built model after load_state_dict(source.state_dict()) gives a different (loss, gradient) than the source', desc, point=P_LC)
+        # two wrappers over ONE Circuit object, different parameters, interleaved use (+ fresh_gate_parameter writing into the shared gates)
+        circ = build_circuit(numqi, spec)
+        w1 = make_circuit_model(numqi, spec, H, psi0, P_init, False, circ=circ)
+        w2 = make_circuit_model(numqi, spec, H, psi0, P_init, False, circ=circ)
+        randomize(w2)
+        la, ga = grads(w1)
+        lb, gb = grads(w2)
+        w2.circuit_torch.fresh_gate_parameter()
+        la2, ga2 = grads(w1)
+        judge(w2, gb, lb, 'circuit/lifecycle/two-wrappers-share-state', 'second CircuitTorchWrapper over the same Circuit object, own parameters')
+        judge(w1, ga2, la2, 'circuit/lifecycle/two-wrappers-share-state', 'first CircuitTorchWrapper after the second one (same Circuit object) was used and refreshed the gates')
+        ctx.close(np.concatenate([[la2], ga2]), np.concatenate([[la], ga]), 1e-12 * (1 + np.abs(ga).max() + abs(la)), 'circuit/lifecycle/two-wrappers-share-state',
+                  'a wrapper gives a different (loss, gradient) after another wrapper over the same Circuit object was used', desc, point=P_LC)
+        # two models chained: d loss / d(upstream parameters) flows through the gradient w.r.t. the INPUT state of the second circuit
+        qa = model.state()
+        qb = mc.state(qa)
+        _zero_grads(_params_of(model)[0])
+        _zero_grads(_params_of(mc)[0])
+        lossc = loss_of_state(qb, torch.tensor(H, dtype=torch.complex128), 'H')
+        lossc.backward()
+        (nA, nsA), (nB, nsB) = _params_of(model), _params_of(mc)
+        gotA, gotB = flat_from_dict(nsA, _grads_now(nA)), flat_from_dict(nsB, _grads_now(nB))
+        lref, grA, grB = _ref_chain(spec, {k: _np(v).copy() for k, v in nA}, {k: _np(v).copy() for k, v in nB}, H, psi0)
+        if abs(lref - float(lossc.item())) <= 1e-9 * (1 + abs(lref)):
+            cmp_grad(ctx, gotA, flat_from_dict(nsA, grA), 'circuit/chained/upstream-parameter-grad', 'two circuit wrappers chained: gradient of the UPSTREAM parameters',
+                     P_LC, classes=coordinate_classes(spec, nsA), witness=desc)
+            cmp_grad(ctx, gotB, flat_from_dict(nsB, grB), 'circuit/chained/downstream-parameter-grad', 'two circuit wrappers chained: gradient of the downstream parameters',
+                     P_LC, classes=coordinate_classes(spec, nsB), witness=desc)
+        else:
+            ctx.inconclusive('circuit-lifecycle/chain-reference-forward-mismatch')
+        # a LEAF input state that requires grad (not a Parameter); the parameters with and without that
+        psi = torch.tensor(psi0, dtype=torch.complex128, requires_grad=True)
+        named, names_shapes = _params_of(model)
+        _zero_grads(named)
+        lossp = loss_of_state(model.state(psi), torch.tensor(H, dtype=torch.complex128), 'H')
+        lossp.backward()
+        gp = flat_from_dict(names_shapes, _grads_now(named))
+        vals = {k: _np(v).copy() for k, v in named}
+        vals.update({'psi_r': psi0.real.copy(), 'psi_i': psi0.imag.copy()})
+        lref, gref, _ = ref_circuit(spec, vals, H, psi0, True)
+        if psi.grad is None or tuple(psi.grad.shape) != psi0.shape:
+            ctx.check(False, 'circuit/input-state-grad(leaf tensor)/missing', 'no gradient was delivered to a leaf input state that requires grad', desc, point=P_LC)
+        elif abs(lref - float(lossp.item())) <= 1e-9 * (1 + abs(lref)):
+            cmp_grad(ctx, _np(psi.grad), gref['psi_r'] + 1j * gref['psi_i'], 'circuit/input-state-grad(leaf tensor)', 'gradient w.r.t. a leaf input state that requires grad', P_LC, witness=desc)
+            ctx.close(gp, g0b, 1e-12 * (1 + np.abs(g0b).max()), 'circuit/parameter-grad-depends-on-input-requires-grad',
+                      'the parameter gradient differs between an input state that requires grad and a constant one with the same values', desc, point=P_LC)
+        # one parameter tensor frozen with requires_grad_(False): the others keep the right gradient, through .grad and through the bridge
+        if len(named) >= 2:
+            frozen_name, frozen = named[int(rng.integers(len(named)))]
+            frozen.requires_grad_(False)
+            try:
+                lf, gf = grads(model)
+                named_f, ns_f = _params_of(model)
+                lref, gref, _ = ref_circuit(spec, {k: _np(v_).copy() for k, v_ in model.named_parameters()}, H, psi0, False)
+                if abs(lref - lf) <= 1e-9 * (1 + abs(lref)):
+                    cmp_grad(ctx, gf, flat_from_dict(ns_f, gref), 'circuit/frozen-parameter/grad-of-the-others', 'gradient of the trainable parameters while one parameter tensor is frozen',
+                             P_LC, classes=coordinate_classes(spec, ns_f), witness=dict(desc, frozen=frozen_name))
+                ctx.check(abs(lf - l0) <= 1e-12 * (1 + abs(l0)), 'circuit/frozen-parameter/value-changed', 'freezing a parameter tensor changed the loss value',
+                          dict(desc, frozen=frozen_name), point=P_LC)
+                st['closure'] = {'key': 'circuit/grad-vs-fd/frozen-parameter', 'point': P_LC, 'classes': coordinate_classes(spec, ns_f), 'tag': dict(desc, frozen=frozen_name)}
+                try:
+                    fv, gv = numqi.optimize.hf_model_wrapper(model)(flat_from_dict(ns_f, {k: _np(v_) for k, v_ in named_f}))
+                finally:
+                    st['closure'] = None
+                ctx.close(gv, gf, 1e-12 * (1 + np.abs(gf).max()), 'hf_model_wrapper/frozen-parameter/flat-grad-vs-param-grad',
+                          'flat gradient of the bridge with a frozen parameter tensor differs from the .grad of the trainable ones', desc, point=P_LC)
+            finally:
+                frozen.requires_grad_(True)
+
+
 def hist_kl(ctx, numqi, st, rep):
     rng = ctx.rng
     kli = numqi.qec.knill_laflamme_inner_product
@@ -1992,6 +2296,9 @@ def hist_kl(ctx, numqi, st, rep):
         g1 = torch.autograd.grad(inner, base, grad_outputs=v, retain_graph=True)[0]
         ctx.check(bool(torch.equal(v, v0)), 'kl/backward/mutates-cotangent-or-saved-tensors', 'the cotangent tensor handed to the Knill-Laflamme backward was modified in place',
                   {'max_change': float((v - v0).abs().max())}, point='history/kl/cotangent-reuse')
+        g3 = torch.autograd.grad(inner, base, grad_outputs=v0 * 1e-9, retain_graph=True)[0]
+        ctx.close(g3 * 1e9, g1, (1e-4 if single else 1e-9) * (1 + float(g1.abs().max())), 'kl/vjp-not-linear-in-cotangent(tiny cotangent)',
+                  'the vector-Jacobian product with the cotangent 1e-9*v is not 1e-9 times the one with v', desc, point='history/kl/cotangent-reuse')
         g2 = torch.autograd.grad(inner, base, grad_outputs=v)[0]
         ctx.close(g2, g1, 1e-12 * (1 + float(g1.abs().max())), 'kl/history/second-vjp-with-same-cotangent-differs',
                   'two vector-Jacobian products with the same cotangent differ', desc, point='history/kl/cotangent-reuse')
@@ -2050,8 +2357,21 @@ def _psd_values(rng, d, cplx, cls):
         A[np.ix_(idx, idx)] = A1
         A[k, k] = -1e-13
         return A
-    # exact special inputs: the identity, multiples of it, exactly diagonal, exactly degenerate (diagonal or permuted blocks)
     dt = np.complex128 if cplx else np.float64
+    # numerical regimes: equal to an exact object only up to a small perturbation / rounding noise; nearly rank deficient
+    if cls == 'near-identity':  # c*(I + eps*Hermitian), eps ~ 1e-10..1e-6
+        E = _cplx(rng, (d, d), cplx)
+        return (float(rng.uniform(0.3, 1.5)) * (np.eye(d) + 10.0**rng.uniform(-10, -6) * (E + E.conj().T) / 2)).astype(dt)
+    if cls == 'noisy-identity':  # I (or a diagonal degenerate matrix) + dense NON-Hermitian rounding noise of size 1e-15..1e-9
+        base = np.eye(d) if rng.random() < 0.5 else np.diag(np.array([[0.5, 1.25][int(i)] for i in rng.integers(0, 2, size=d)]))
+        return (base + 10.0**rng.uniform(-15, -9) * _cplx(rng, (d, d), cplx)).astype(dt)
+    if cls in ('near-singular', 'near-singular-log'):  # lambda_min/lambda_max ~ 1e-6..1e-3 (logm: 1e-4..1e-2), not exactly singular
+        U = rand_unitary(rng, d) if cplx else np.linalg.qr(rng.normal(size=(d, d)))[0]
+        lam = np.sort(rng.uniform(0.3, 1.5, size=d))
+        lam[0] = lam[-1] * 10.0**(rng.uniform(-6, -3) if cls == 'near-singular' else rng.uniform(-4, -2))
+        A = (U * lam) @ U.conj().T
+        return ((A + A.conj().T) / 2).astype(dt)
+    # exact special inputs: the identity, multiples of it, exactly diagonal, exactly degenerate (diagonal or permuted blocks)
     if cls == 'identity':
         return np.eye(d, dtype=dt)
     if cls == 'scaled-identity':
@@ -2073,6 +2393,7 @@ def _psd_values(rng, d, cplx, cls):
 
 
 EXACT_PSD = ['identity', 'scaled-identity', 'diagonal', 'diag-degenerate', 'block-degenerate']
+REGIME_PSD = ['near-identity', 'noisy-identity', 'near-singular']
 
 
 def _psd_fd(ctx, fn, op, A0, Vn, g, key, what, point, cdt, witness):
@@ -2132,7 +2453,7 @@ def hist_psd(ctx, numqi, st, rep, fn):
     bshape = [(), (3,), (2, 2)][rep % 3]
     nb = int(np.prod(bshape)) if bshape else 1
     s, order = ((6, 8) if rep % 2 == 0 else (3, 5)) if fn == 'logm' else (1, 0)
-    pool = ['full', 'degenerate'] + (['zero-eig'] if fn == 'sqrtm' else []) + EXACT_PSD
+    pool = ['full', 'degenerate'] + (['zero-eig'] if fn == 'sqrtm' else []) + EXACT_PSD + (REGIME_PSD if fn == 'sqrtm' else REGIME_PSD[:2] + ['near-singular-log'])
     cdt = (torch.complex128 if cplx else torch.float64)
     used = []
 
@@ -2156,14 +2477,18 @@ def hist_psd(ctx, numqi, st, rep, fn):
         g1 = torch.autograd.grad(F, A, grad_outputs=v, retain_graph=True)[0]
         ctx.check(bool(torch.equal(v, v0)), f'{key}/backward/mutates-cotangent-or-saved-tensors', f'the cotangent tensor handed to the {fn} backward was modified in place',
                   {'max_change': float((v - v0).abs().max())}, point=f'history/{fn}/cotangent-reuse')
+        g3 = torch.autograd.grad(F, A, grad_outputs=v0 * 1e-9, retain_graph=True)[0]
+        if bool(torch.isfinite(g1).all()):
+            ctx.close(g3 * 1e9, g1, 1e-9 * (1 + float(g1.abs().max())), f'{key}/vjp-not-linear-in-cotangent(tiny cotangent)',
+                      'the vector-Jacobian product with the cotangent 1e-9*v is not 1e-9 times the one with v', desc, point=f'history/{fn}/cotangent-reuse')
         g2 = torch.autograd.grad(F, A, grad_outputs=v)[0]
         ctx.close(g2, g1, 1e-12 * (1 + float(g1.abs().max())), f'{key}/history/second-vjp-with-same-cotangent-differs',
                   'two vector-Jacobian products with the same cotangent differ', desc, point=f'history/{fn}/cotangent-reuse')
         ctx.case(f'{fn}-history', d, cplx, bshape, A0, Vn, nontrivial=float(g1.abs().max()) > 1e-8,
                  sample=dict(desc, grad_max=float(g1.abs().max())) if rep < 1 else None)
         _psd_compare(ctx, fn, _np(g1), A0, Vn, s, order, f'{key}/vjp-vs-reference', f'{fn} vector-Jacobian product with an explicit cotangent', f'history/{fn}/cotangent-reuse', 1e-7, desc)
-        if 'zero-eig' not in used[0]:
-            tag = '/exact-special-input' if set(used[0]) & set(EXACT_PSD) else ''
+        if not set(used[0]) & {'zero-eig', 'near-singular', 'near-singular-log'}:  # (a finite step would leave the PSD cone there)
+            tag = '/exact-special-input' if set(used[0]) & set(EXACT_PSD) else ('/nearly-exact-input' if set(used[0]) & set(REGIME_PSD) else '')
             _psd_fd(ctx, fn, op, A0, Vn, _np(g1), f'{key}/grad-vs-fd/hermitian-directions{tag}', f'{fn}: gradient w.r.t. the input matrix along Hermitian directions',
                     f'history/{fn}/fd-hermitian', cdt, dict(desc, classes=used[0]))
         # expanded cotangent: F.sum() / F.mean()
@@ -2363,11 +2688,14 @@ def _hist_spec_from(rng, spec):
 
 def run_history(ctx, numqi, st, shard):
     ctx.workload('corner', 1)
+    st['adam'] = bool(shard.get('adam', False))
     what = shard.get('what', 'all')
     for rep in range(shard['n']):
         if what in ('all', 'circuit'):
             ctx.workload('random')
             hist_circuit(ctx, numqi, st, rep)
+            if rep % 2 == 0:
+                lifecycle_circuit(ctx, numqi, st, rep // 2)
         if what in ('all', 'matrix'):
             ctx.workload('random', 5)
             hist_kl(ctx, numqi, st, rep)
@@ -2474,6 +2802,52 @@ def api_surface_circuit(ctx, numqi, st):
         if form != 'positional' and 'positional' in results:
             key = 'Circuit.gate/positional-call-differs-from-keyword-call' if form == 'keyword' else f'Circuit.gate/argument-form-dependent({form})'
             _same_result(ctx, [r[0], r[1]], list(results['positional']), key, f'the circuit built through the {form} form gives a different (loss, gradient)', form)
+    # Circuit.extend_circuit: the gates of the sub-circuit are RE-USED (shared parameters) every time it is appended
+    ctx.set_case({'kind': 'api-extend-circuit'})
+    with ctx.guard('api/extend-circuit'):
+        sub = numqi.sim.Circuit(default_requires_grad=True)
+        sub.ry(0, a[0]); sub.crx(0, 1, a[5]); sub.rzz((2, 1), a[4])
+        c = numqi.sim.Circuit(default_requires_grad=True)
+        c.extend_circuit(sub); c.cnot(1, 2); c.u3(2, tuple(a[1:4])); c.extend_circuit(sub); c.H(0); c.extend_circuit(circ0=sub)
+        e_prog, e_theta = [], {'ry': [[a[0]]], 'crx': [[a[5]]], 'rzz': [[a[4]]], 'u3': [a[1:4]]}
+        blk = [{'g': 'ry', 'tgt': [0], 'ctrl': [], 'p': ['theta', 'ry', 0]}, {'g': 'crx', 'tgt': [1], 'ctrl': [0], 'p': ['theta', 'crx', 0]},
+               {'g': 'rzz', 'tgt': [2, 1], 'ctrl': [], 'p': ['theta', 'rzz', 0]}]
+        e_prog = blk + [{'g': 'X', 'tgt': [2], 'ctrl': [1]}, {'g': 'u3', 'tgt': [2], 'ctrl': [], 'p': ['theta', 'u3', 0]}] + [dict(o) for o in blk] + [{'g': 'H', 'tgt': [0], 'ctrl': []}] + [dict(o) for o in blk]
+        e_spec = {'n': n, 'prog': e_prog, 'mats': {}, 'theta': e_theta, 'features': [], 'special': None}
+        model = M(c)
+        named, names_shapes = _params_of(model)
+        flat = rng.uniform(0, 2 * np.pi, size=sum(int(np.prod(sh)) for _, sh in names_shapes))
+        st['closure'] = {'key': 'circuit/grad-vs-fd/extend_circuit', 'point': 'api/circuit-forms', 'tag': 'extend_circuit'}
+        try:
+            hf = numqi.optimize.hf_model_wrapper(model)
+            fv, gv = hf(flat)
+        finally:
+            st['closure'] = None
+        ok_layout = [k for k, _ in names_shapes] == ['circuit_torch.theta.' + k for k in sorted(e_theta)] and all(int(np.prod(sh)) == len(e_theta[k[len('circuit_torch.theta.'):]][0]) for k, sh in names_shapes)
+        if ctx.check(ok_layout, 'Circuit.extend_circuit/parameters-not-shared', 'a sub-circuit appended three times must contribute ONE parameter row per trainable gate',
+                     {'parameters': [[k, list(sh)] for k, sh in names_shapes]}, point='api/circuit-forms'):
+            lref, gref, _ = ref_circuit(e_spec, dict_from_flat(names_shapes, flat), H, psi0, False)
+            if abs(lref - fv) <= 1e-9 * (1 + abs(lref)):
+                cmp_grad(ctx, gv, flat_from_dict(names_shapes, gref), 'circuit/grad-vs-autograd/extend_circuit(shared parameters)', 'circuit built with extend_circuit (gates re-used three times)',
+                         'api/circuit-forms', witness='extend_circuit')
+            else:
+                ctx.inconclusive('api/extend-circuit/reference-forward-mismatch')
+        ctx.case('api-extend-circuit', flat, nontrivial=True)
+        # less prominent consumers of the bridge: get_model_flat_grad / get_model_flat_parameter / check_model_gradient / minimize_adam
+        OI = numqi.optimize._internal
+        _same_result(ctx, [OI.get_model_flat_grad(model), OI.get_model_flat_parameter(model)], [gv, flat], 'get_model_flat_grad/differs-from-closure-gradient',
+                     'get_model_flat_grad / get_model_flat_parameter after closure(theta) differ from the returned gradient / theta', 'extend_circuit')
+        try:
+            numqi.optimize.check_model_gradient(model, tol=1e-5, zero_eps=1e-4, seed=int(rng.integers(2**31)))
+            ctx.check(True, 'check_model_gradient/asserts-on-a-correct-model', '', None, point='api/circuit-forms')
+        except AssertionError:
+            ctx.check(False, 'check_model_gradient/asserts-on-a-correct-model', "numqi's own gradient check (tol 1e-5, step 1e-4) rejects the gradient of a unitary-gate circuit model",
+                      'extend_circuit', point='api/circuit-forms')
+        # Adam / SGD drive loss.backward() directly (no bridge): the backward postconditions judge every step
+        before = ctx.hits.get('_CircuitFunction.backward', 0)
+        for oa in ((('adam', 0.05), ('sgd', 0.05, 0.01)) if st.get('adam') else ()):  # (thorough only: the first optimizer.step costs ~5 s of torch imports)
+            numqi.optimize.minimize_adam(model, 3, theta0=('uniform', 0, 2 * np.pi), optim_args=oa, seed=int(rng.integers(2**31)), tqdm_update_freq=0)
+        _count(ctx, 'minimize_adam_backward_calls_observed', 'circuit', ctx.hits.get('_CircuitFunction.backward', 0) - before)
     # numqi.optimize.minimize: positional in the shipped order vs keywords (same start, same seed)
     ctx.set_case({'kind': 'api-minimize'})
     with ctx.guard('api/minimize'):
@@ -2545,6 +2919,18 @@ def api_surface_matrix(ctx, numqi, st):
                          'get_PSDMatrixLogm(numpy ints)': TO.get_PSDMatrixLogm(np.int64(6), np.int64(8))}.items():
             _same_result(ctx, grad_with(op), base, 'PSDMatrixLogm/positional-call-differs-from-keyword-call', f'{name} differs from PSDMatrixLogm(6, 8)', name)
         _psd_compare(ctx, 'logm', _np(base[1]), A0, Vn, 6, 8, 'logm/vjp-vs-reference', 'PSDMatrixLogm(6,8) gradient', 'api/positional-vs-keyword', 1e-7, 'api')
+        import copy
+        m0 = TO.PSDMatrixLogm(6, 8)
+        m1 = copy.deepcopy(m0)
+        grad_with(TO.PSDMatrixLogm(3, 5))  # another instance used in between
+        _same_result(ctx, grad_with(m1), base, 'PSDMatrixLogm/deepcopy-differs', 'copy.deepcopy(PSDMatrixLogm(6, 8)) differs from the original', 'deepcopy')
+        _same_result(ctx, grad_with(m0), base, 'PSDMatrixLogm/instance-changed-after-other-instances-were-used', 'PSDMatrixLogm(6, 8) differs after its copy and a (3,5) instance were used', 'deepcopy')
+        try:  # the module builds torch.eye with the DEFAULT dtype: the gradient of a complex128 input must not depend on it
+            torch.set_default_dtype(torch.float64)
+            r64 = grad_with(TO.PSDMatrixLogm(6, 8))
+        finally:
+            torch.set_default_dtype(torch.float32)
+        _same_result(ctx, r64, base, 'PSDMatrixLogm/depends-on-default-dtype', 'PSDMatrixLogm gradient of a complex128 input under torch default dtype float64 vs float32', 'default-dtype', tol=1e-10)
     ctx.set_case({'kind': 'api-entropy'})
     with ctx.guard('api/entropy'):
         U = numqi.utils
